@@ -10,6 +10,8 @@ import z3
 
 W = 128          # width of the signed bit-vector model of a Python int
 MAXDOM = 64      # largest finite domain that is concretised by forking
+QUERY_TIMEOUT_MS = int(__import__("os").environ.get("VX_QUERY_TIMEOUT_MS", "30000"))     # per solver call; a call that gives up is retried (fresh solver, other seed, then cvc5)
+RETRY_TIMEOUT_MS = 180000
 
 
 class Abort(BaseException):
@@ -59,6 +61,7 @@ class Engine:
     # ------------------------------------------------------------------ per path
     def start(self):
         self.solver = z3.Solver()
+        self.solver.set('timeout', QUERY_TIMEOUT_MS)
         self.pos = 0
         self.pc = []
         self.atoms = []
@@ -77,6 +80,8 @@ class Engine:
             r = self.solver.check()
             if r == z3.sat and want_model:
                 self.cur_model = self.solver.model()
+            elif r == z3.unknown:
+                r = self._second_attempt(extra, want_model)
         finally:
             if extra is not None:
                 self.solver.pop()
@@ -101,6 +106,32 @@ class Engine:
                 else:
                     self.cross['errors'] += 1
         return r == z3.sat
+
+    def _second_attempt(self, extra, want_model):
+        """the incremental solver gave up within its per-query limit (the same query is occasionally easy under another
+        search order): a fresh solver with another seed and a longer limit, then cvc5 for the verdict alone"""
+        self.n_retry = getattr(self, 'n_retry', 0) + 1
+        s2 = z3.Solver()
+        s2.set('timeout', RETRY_TIMEOUT_MS)
+        s2.set('random_seed', 7 + self.n_retry)
+        for c in self.pc:
+            s2.add(c)
+        if extra is not None:
+            s2.add(extra)
+        r = s2.check()
+        if r == z3.sat and want_model:
+            self.cur_model = s2.model()
+        if r != z3.unknown:
+            return r
+        try:
+            v = cvc5_verdict(s2, z3.BoolVal(True), timeout_ms=RETRY_TIMEOUT_MS)
+        except Exception:       # noqa
+            v = 'error'
+        if v == 'unsat':
+            return z3.unsat
+        if v == 'sat' and not want_model:
+            return z3.sat
+        return z3.unknown
 
     def _holds(self, cond):
         m = self.cur_model
